@@ -1,5 +1,5 @@
 (* C03, parser side: nothing is dropped or reordered between the split text and the element tree.
-   Every non-blank field text yields exactly its repetitions, in order; every admitted child list is
+   Every non-blank field text yields exactly its repetitions, in order; every accepted child list is
    appended unchanged.  All statements are for arbitrary text (no bound). *)
 From Coq Require Import List Bool ZArith NArith Init.Byte Lia.
 From HL7 Require Import Lib.Str Model.Ec Model.Result Model.Ref Model.Tree Model.Parser.
@@ -12,7 +12,7 @@ Variable lvl : level.
 Variable e : ec.
 Variable leaf_enc : option str -> str -> result str.
 
-(* ---- admission appends the children it is given, in order ---- *)
+(* ---- acceptance appends the children it is given, in order ---- *)
 Lemma add_subs_appends kids : forall c c',
   add_subs t lvl c kids = Ok c' ->
   c_children c' = c_children c ++ kids /\ c_name c' = c_name c /\ c_dt c' = c_dt c.
